@@ -13,15 +13,19 @@
    Python exceptions are the flag s.exc: an operator that "raises" returns at once and every caller
    skips the statements after the call, exactly like the code.
 
-   Bugs (set of names) switches on the as-is / mutant behaviours:
-     "wedge"  as-is: _ObjectWriter.write, _ObjectReader.read_all and write_and_store_config store
-              their bookkeeping BEFORE the first memory operation, which raises when the
-              LighthouseMemory slot is taken -> the object stays "in progress" for ever.
-              With a system type given, write_and_store_config has by then already set the
-              parameter (which erases the data in the Crazyflie) and slept.
-              Without the flag: the slot is checked before anything is changed (repair).
-     "pack"   as-is: _received_location_packet ignores the result carried by the acknowledgement.
-              Without the flag a negative acknowledgement makes the request fail (repair).
+   Bugs (set of names) switches on the as-is / pre-fix / mutant behaviours:
+     "store_wedge"  AS-IS (known finding): write_and_store_config stores its bookkeeping (and, with a
+              system type given, sets the parameter -- which erases the data in the Crazyflie -- and
+              sleeps) BEFORE the first memory write, which raises when the LighthouseMemory slot is
+              taken -> the config writer stays "in progress" for ever.
+              Without the flag: the slot is checked before anything is changed (a repair the code
+              does not have).
+     "wedge"  pre-fix (repaired in /repo 9c1ea78): _ObjectWriter.write and _ObjectReader.read_all keep
+              their bookkeeping when the first memory operation raises.  Without the flag: the
+              bookkeeping is reset in an except clause and the exception re-raised, as the code does.
+     "pack"   pre-fix (repaired in /repo 39058d0): _received_location_packet ignores the result
+              carried by the acknowledgement.  Without the flag a negative acknowledgement makes the
+              request fail.
      "noguard"       write_and_store_config without the 'already in progress' guard (mutant)
      "early_persist" persist packet sent before the calibrations are written (mutant)          *)
 EXTENDS Naturals, Integers, Sequences, FiniteSets, TLC
@@ -99,8 +103,10 @@ WriterNext(st, o) ==
 \* _ObjectWriter.write
 WriterWrite(st, o, objs, cb) ==
     IF st.wt[o].act THEN Raise(st)                                 \* 'Write operation not finished'
-    ELSE IF "wedge" \notin st.bugs /\ Len(objs) > 0 /\ st.wr # "" THEN Raise(st)      \* (repair: look before you leap)
-    ELSE WriterNext([st EXCEPT !.wt[o] = [act |-> TRUE, objs |-> objs, cb |-> cb, fail |-> FALSE]], o)
+    ELSE LET s1 == WriterNext([st EXCEPT !.wt[o] = [act |-> TRUE, objs |-> objs, cb |-> cb, fail |-> FALSE]], o) IN
+         IF s1.exc /\ "wedge" \notin st.bugs
+         THEN [s1 EXCEPT !.wt[o].act = FALSE, !.wt[o].objs = <<>>, !.wt[o].cb = 0]   \* except: reset and re-raise
+         ELSE s1
 
 \* LighthouseConfigWriter._next
 CwNext(st) ==
@@ -123,8 +129,8 @@ CwNext(st) ==
 \* LighthouseConfigWriter.write_and_store_config
 CwStore(st, k, d) ==
     IF st.cw.cb # 0 /\ "noguard" \notin st.bugs THEN Raise(st)        \* 'Write already in prgress'
-    ELSE IF "wedge" \notin st.bugs /\ (d.hasg = 1 \/ d.hasc = 1) /\ (st.wr # "" \/ st.wt["w_g"].act \/ st.wt["w_c"].act)
-         THEN Raise(st)                                            \* (repair: look before you leap)
+    ELSE IF "store_wedge" \notin st.bugs /\ (d.hasg = 1 \/ d.hasc = 1) /\ (st.wr # "" \/ st.wt["w_g"].act \/ st.wt["w_c"].act)
+         THEN Raise(st)                                            \* (repair, not in the code: look before you leap)
     ELSE LET s1 == [st EXCEPT !.reg = TRUE,
                               !.cw = [cb |-> k,
                                       gwset |-> d.hasg = 1, gw |-> IF d.hasg = 1 THEN Pad(st.nbs, d.objs) ELSE <<>>,
@@ -143,8 +149,8 @@ ReaderGet(st, o) ==
 \* _ObjectReader.read_all
 ReaderReadAll(st, o, k) ==
     IF st.rd[o].cb # 0 THEN Raise(st)                              \* 'Read operation not finished'
-    ELSE IF "wedge" \notin st.bugs /\ NCH > 0 /\ st.upd # "" THEN Raise(st)            \* (repair: look before you leap)
-    ELSE ReaderGet([st EXCEPT !.rd[o] = [cb |-> k, next |-> 0, res |-> <<>>]], o)
+    ELSE LET s1 == ReaderGet([st EXCEPT !.rd[o] = [cb |-> k, next |-> 0, res |-> <<>>]], o) IN
+         IF s1.exc /\ "wedge" \notin st.bugs THEN [s1 EXCEPT !.rd[o] = IdleR] ELSE s1   \* except: reset and re-raise
 
 \* the user's completion callback of request k; it may issue one more request (whose own outcome the
 \* callback swallows)
